@@ -11,18 +11,26 @@ Oracle on the implementation alone, written independently of the model:
     truncation of a valid body) must be `err` (or, for a truncation that is itself a complete
     body, exactly the complete parts);
   * browser-shaped requests: extract_boundary(Content-Type) must be the boundary, the body with
-    `--`boundary delimiter lines and the `--`boundary`--` close must give the parts."""
-import itertools
+    `--`boundary delimiter lines and the `--`boundary`--` close must give the parts;
+  * the echo endpoint (second observation point): a browser-shaped form posted to
+    /form-multipart-enctype-post-method is answered 200 with `<name> is <value> CRLF` per part, in order;
+    the malformed shapes are not answered 200.
+The input classes of the generator audit are in vlib/gen_c16.py."""
+import itertools, sys
 from vlib import common as C
+from vlib import gen_c16 as X    # the input classes added by the generator audit (audit/C16)
 
-DRIVERS = ['Multipart']   # model driver files this check runs: scopes translator failures to the tables they (and the proofs) import
+DRIVERS = ['Multipart', 'Serve']   # model driver files this check runs: scopes translator failures to the tables they (and the proofs) import
 TRUSTED = ['Rust std on valid UTF-8 as modelled on bytes: String::from_utf8 (Rws.Utf8M.valid), str::trim (25 White_Space '
            'characters), char::is_ascii_control, str::replace/contains/split_once, BufRead::read_until, slice::windows',
            'model abstractions (Rws/Multipart.lean header): cursor = list of remaining lines; the three loops and the recursion '
            'of parse_form_part_recursively as one state machine; Part::get_header compared for ASCII names only']
 ASSUMPTIONS = ['protocol glue: hex fields; the UTF-8 gate on String arguments is String::from_utf8 in the harness and '
                'Rws.Utf8M.valid in the driver (a difference shows as a disagreement)',
-               'independent oracle: own Python splitter (bytes.split on the boundary) and the shape rules in the module docstring']
+               'independent oracle: own Python splitter (bytes.split on the boundary) and the shape rules in the module docstring',
+               'the echo endpoint POST /form-multipart-enctype-post-method is driven through the server model and the real Server::process / '
+               'process_request / App::execute / App::handle_request (vlib/gen_c16.py echo_part); oracle: 200 and `<name> is <value> CRLF` per part in order '
+               'for browser-shaped forms with UTF-8 values, not 200 for the three malformed shapes of the statement']
 
 CRLF = b'\r\n'
 BCHARS_NOSPACE = "0123456789ABCDEFGHIJKLMNOPQRSTUVWXYZabcdefghijklmnopqrstuvwxyz'()+_,-./:=?"
@@ -239,6 +247,8 @@ def writer_body(ps, b):
 # ----------------------------------------------------------------------------- the run
 def run(res, tier, seed):
     rng = C.Rng(seed)
+    rx = rng.fork('gen_c16')           # the audit's classes draw from their own stream: the base sections keep theirs
+    P = sys.modules[__name__]
     quick = tier == 'quick'
     lines, meta = [], []
     def add(line, kind, payload=None):
@@ -278,6 +288,10 @@ def run(res, tier, seed):
                 add('mprt ' + parts_field(enc_parts(ps)) + ' ' + C.hx(b), 'rt', (ps, b, 'small'))
                 nsmall += 1
 
+    # 1b. the same small bodies as the first, a middle and the last part of a list of three
+    for ps, b, tag in X.small_positions(quick, P):
+        if ok_boundary(b, ps): add('mprt ' + parts_field(enc_parts(ps)) + ' ' + C.hx(b), 'rt', (ps, b, tag))
+
     # 2. random round trips in the hypothesis class (generate, then parse what the implementation wrote)
     nrt = 1500 if quick else 40000
     gen_cases = []
@@ -289,6 +303,8 @@ def run(res, tier, seed):
         for _ in range(10 if quick else 200):
             ps, b = gen_case(rng, False, bk)
             gen_cases.append((ps, b, 'boundary:' + bk))
+    # 2b. the shapes the base generator does not draw (look-alikes of the boundary, long lines, long / unusual header texts, …)
+    gen_cases += X.rt_cases(rx.fork('rt'), quick, P)
     for ps, b, tag in gen_cases:
         add('mpgen ' + parts_field(enc_parts(ps)) + ' ' + C.hx(b), 'gen', (ps, b, tag))
 
@@ -353,6 +369,10 @@ def run(res, tier, seed):
         bad = writer_body(eps2, bb) if rng.chance(1, 2) else browser_body(eps2, bb)
         add('mpparse ' + C.hx(bad) + ' ' + C.hx(b), 'must-err', 'headerless')
 
+    # 4b. preamble before a complete body, the last delimiter of a several-part body missing, headerless part with a bare LF
+    for data, b, label in X.malformed_cases(rx.fork('malformed'), quick, P):
+        add('mpparse ' + C.hx(data) + ' ' + C.hx(b), 'must-err', label)
+
     # 5. every truncation of small valid bodies
     ntr = 12 if quick else 150
     for i in range(ntr):
@@ -385,7 +405,19 @@ def run(res, tier, seed):
             ct = 'multipart/form-data; boundary=' + ('"' + b + '"' if quoted else b)
             add('mpboundary ' + C.hx(ct), 'boundary', (b, 'quoted' if quoted else 'plain'))
             add('mpparse ' + C.hx(browser_body(enc_parts(ps), b.encode())) + ' ' + C.hx(b), 'browser', (ps, b))
+    # 6c. browser-shaped bodies on the other boundary families (hyphens only, 1 / 70 characters, self-overlapping), 2..8 parts,
+    #     with and without the final line break
+    for ps, b, final in X.browser_cases(rx.fork('browser'), quick, P):
+        if not (wf_parts(ps) and ok_boundary(b, ps)): continue
+        data = browser_body(enc_parts(ps), b.encode())
+        add('mpparse ' + C.hx(data if final else data[:-2]) + ' ' + C.hx(b), 'browser', (ps, b))
+    # 6d. Content-Type values whose boundary spells the parameter name; other spellings of the header (differential only)
+    judged, free = X.content_types(rx.fork('ct'), quick, P)
+    for ct, b, tag in judged: add('mpboundary ' + C.hx(ct), 'boundary', (b, tag))
+    for ct in free: add('mpboundary ' + C.hx(ct), 'ct-any', None)
     # 7. unstructured: line soups and mutations (differential only, "never a panic")
+    for data, b in X.lenient_cases(rx.fork('lenient'), quick, P):
+        add('mpparse ' + C.hx(data) + ' ' + C.hx(b), 'soup', None)
     nsoup = 1200 if quick else 40000
     for i in range(nsoup):
         b = gen_boundary(rng, rng.choice(['plain', 'hyph', 'lead', 'dashes', 'len1'])) if rng.chance(9, 10) else ''
@@ -519,6 +551,10 @@ def run(res, tier, seed):
             res.fail('panic:' + a.split(' ', 1)[1], short, a, None, 'parse panicked'); continue
         if inhyp and a != 'ok ' + parts_field(enc_parts(ps)):
             res.fail('roundtrip', short, a[:200], None, 'parse(generate(ps, b), b) != ps for well-formed ps and a boundary that does not occur in the data')
+    necho = X.echo_part(res, rx.fork('echo'), tier, P)
+    res.rule += ('; audit classes (vlib/gen_c16.py): small bodies in each position of a 3-part list, look-alikes of the boundary, long lines, '
+                 'long / unusual header texts, repeated header names, preamble / last-delimiter-missing / LF-headerless bodies, browser-shaped bodies '
+                 'on all boundary families, boundaries that spell `boundary=`, lenient spellings (differential), %d echo requests through four entry points' % necho)
     k = next(i for i, m in enumerate(meta) if m[0] == 'gen')
     res.sample({'op': lines[k][:160], 'implementation': impl[k][:120], 'model': model[k][:120]})
     k = next(i for i, m in enumerate(meta) if m[0] == 'trunc' and m[1][3] > 20)
